@@ -1,8 +1,8 @@
 #!/verif/.venv/bin/python
 # Replay of a solver counterexample against the unmodified code (no shims).
-# property=C09 kernel=readonly label=readonly:queries_answer
+# property=C09 kernel=atomic label=atomic:declare_bad_target#0
 import sys
 sys.path[:0] = ['/repo' + "/pulser-core", '/repo' + "/pulser-simulation", "/verif"]
 from symx.replay import replay
-sys.exit(replay(check='checks.c09', kernel='readonly', shape={'device': 'virt_maxseq', 'what': 'queries_param_slm', 'eom': False},
-                assignment={'a0': '1/1024', 'd0': -200000000, 'a1': '1/512', 'a2': '1/1024', 'buf#1.start': 0, 'buf#1.end': 0, 'buf#2.start': 0, 'buf#2.end': 1, 'buf#9.start': 0, 'buf#9.end': 1, 'buf#10.start': 0, 'buf#10.end': 1}, label='readonly:queries_answer'))
+sys.exit(replay(check='checks.c09', kernel='atomic', shape={'device': 'virt_maxseq', 'prefix': 'p0', 'ops': ['declare_bad_target']},
+                assignment={}, label='atomic:declare_bad_target#0'))
